@@ -499,6 +499,57 @@ fn main() {
         t
     });
 
+    // S3f: quotients one unit of the NUMERATOR away from an exact tie, for divisors of every length class (far beyond
+    // the precision, on both sides of 64*64 bits and of the big-multiplication switches): a = (2Q+1)*d -+ 1, b = 2*d
+    // gives Q.4 9^L.. / Q.5 / Q.5 0^L 1 with L about the divisor's length - a reciprocal-based or doubly rounded
+    // quotient cannot tell these apart unless it works to the divisor's full length
+    let dl: Vec<usize> = tier.pick(vec![40, 100, 101, 200, 300, 617, 1232, 1233, 1234, 1235, 1300, 2000, 3000], vec![40, 100, 101, 200, 300, 617, 1232, 1233, 1234, 1235, 1300, 2000, 3000, 5000, 10_000, 20_000]);
+    run.bound("S3f_divisor_lengths", json!(dl));
+    run.par("S3f neighbours of exact ties, long divisors", dl.len(), |i| {
+        let mut t = Tally::default();
+        let l = dl[i];
+        let dens: Vec<BigInt> = vec![big(&filler_digits(run.seed(), 9100 + l as u64, l)), pow10(l as u64 - 1) + 1, pow10(l as u64) - 1];
+        let mut qs: Vec<BigInt> = vec![pow10(pl as u64 - 1), pow10(pl as u64) - 1, big(&filler_digits(run.seed(), 9300, pl as usize))];
+        qs.push(&qs[2] + 1);
+        for d in dens.iter() {
+            for q in qs.iter() {
+                for pm in [-1i64, 0, 1] {
+                    let a: BigInt = (q * 2 + 1) * d + pm;
+                    let b: BigInt = d * 2;
+                    t.states += 1;
+                    t.nontrivial += 4;
+                    check_dec(&run, &Dec { n: a.clone(), s: 0 }, &Dec { n: b.clone(), s: 0 }, &forms, &mut t);
+                    check_dec(&run, &Dec { n: -a, s: 9 }, &Dec { n: b, s: -4 }, &forms, &mut t);
+                }
+            }
+        }
+        t
+    });
+
+    // S3g: EVERY small numerator 1..=nmax over divisors far longer than the precision (on both sides of 64*64 bits):
+    // the quotients' digits beyond the precision are spread evenly, so a quotient computed with g guard digits too
+    // few is wrong for about 10^-g of the numerators - nmax is chosen so that two guard digits cannot hide
+    let nmax_g: u64 = tier.pick(6000, 200_000);
+    let gl: Vec<usize> = vec![120, 1230, 1240, 1300, 2500];
+    run.bound("S3g_numerators", format!("1..={} over divisors of {:?} digits", nmax_g, gl));
+    run.par("S3g every small numerator over long divisors", gl.len() * 40, |i| {
+        let mut t = Tally::default();
+        let l = gl[i / 40];
+        let den = Dec { n: big(&filler_digits(run.seed(), 9500 + l as u64, l)), s: 17 };
+        let xb = bd(&den);
+        let forms1 = &forms[..1];
+        let mut n = (i % 40) as u64 + 1;
+        while n <= nmax_g {
+            let a = Dec { n: BigInt::from(n), s: 0 };
+            t.states += 1;
+            t.nontrivial += 1;
+            let _ = &xb;
+            check_dec(&run, &a, &den, forms1, &mut t);
+            n += 40;
+        }
+        t
+    });
+
     // S3e: quotients with a prescribed digit string INSIDE the precision: prefix | d | 9^r (or 0^r) | tail for every
     // run length r, every leading digit d of the run, prefixes of several lengths; every digit comes out of the
     // digit loop (quotient < 1) and the divisor carries a long factor, so any per-digit estimate is exercised on
